@@ -69,7 +69,7 @@ static void model_case(Case& c) {
     bool det_gen = rng.coin(65);
     config.generate_stochasticity = !det_gen;
     config.establishment_stochasticity = rng.coin(60);
-    int pest64 = rng.in(0, 64); config.establishment_probability = pest64 / 64.0;
+    int pestn = odd2p20(rng); config.establishment_probability = pestn / 1048576.0;
     int rr4 = rng.in(0, 8); config.reproductive_rate = rr4 / 4.0;
     int dir = rng.in(0, 7);
     config.natural_kernel_type = "deterministic neighbor"; config.natural_direction = DIRS[dir];
@@ -198,7 +198,7 @@ static void model_case(Case& c) {
             out << "hp.mortality " << rat64(mrate64) << " " << mlag << " => - " << h.snapshot() << "\n";
         } else if (a == "spread") {
             out << "hp.spread det=" << det_gen << " rr=" << rr4 << "/4 soil=" << (use_soils ? rat64(soil64) : std::string("none")) << " sto=" << config.establishment_stochasticity
-                << " pest=" << rat64(pest64) << " npop=";
+                << " pest=" << rat2p20(pestn) << " npop=";
             for (int x = 0; x < rows; x++) for (int y2 = 0; y2 < cols; y2++) out << (x + y2 ? "," : "") << total_pop(x, y2);
             out << " w=";
             if (!use_weather) out << "none"; else for (int x = 0; x < rows; x++) for (int y2 = 0; y2 < cols; y2++) out << (x + y2 ? "," : "") << rat64(cur_w64[x * cols + y2]);
@@ -231,7 +231,7 @@ static void model_case(Case& c) {
         auto& est = model.random_number_generator().establishment();
         est.script.clear();
         std::ostringstream us;
-        for (int k = 0; k < 400; k++) { int u64 = rng.in(0, 63); est.push_uniform_64ths(u64); us << (k ? "," : "") << u64; }
+        for (int k = 0; k < 400; k++) { int un = odd2p20(rng); est.push_uniform_2p20(un); us << (k ? "," : "") << un; }
         out << "hp.uniforms " << us.str() << " => ok\n";
         klog.targets.clear(); trace.clear();
         std::string e;
